@@ -58,7 +58,8 @@ Proof.
   destruct (insert_child_core _ _ _ _ _ _ C1 Hpar Hnl H) as (C' & -> & HO).
   split; auto. split; [|split; auto; split].
   - intros O. apply NoOrphan_OrphSub. apply NoOrphan_OrphSub in O.
-    pose proof (orphsub_alloc _ _ _ _ C (alloc1_walloc w nd) Hsk O) as HO1. apply HO in HO1.
+    assert (Hnm : forall m0, PElem self <> PModel m0) by congruence.
+    pose proof (orphsub_alloc _ _ _ _ C (alloc1_walloc w nd) Hsk Hnm O) as HO1. apply HO in HO1.
     eapply OrphSub_weaken; [|exact HO1].
     intros x Hx. cbv beta in Hx. destruct Hx as [[[]|(-> & _)] Hx]. congruence.
   - subst w'. rewrite nodes_wset_neq by auto. apply nodes_walloc_new.
